@@ -2,6 +2,7 @@ import ParryModel.C05.Theorems1
 import ParryModel.C05.Theorems2
 import ParryModel.C05.Theorems3
 import ParryModel.C05.Theorems4
+import ParryModel.C05.Theorems5
 /-!
 # C05 property theorems (umbrella file)
 
@@ -12,5 +13,6 @@ import ParryModel.C05.Theorems4
   non-negative, 2-D and 3-D), unconditional 2-D membership.
 * `Theorems4.lean` — fu4: oriented-TriMesh pseudo-normal sign test (face / edge / vertex), HeightField cell tiling, cell-range
   completeness, triangle-id injectivity.
+* `Theorems5.lean` — fu4: tetrahedron vertex regions (returned + optimal) and `check_edge` (sound + optimal).
 `./mkaudit C05` collects the public `theorem`s of every `Theorems*.lean`.
 -/
